@@ -525,6 +525,16 @@ func (w *c16World) addSibling(i int) int {
 	return len(w.iss) - 1
 }
 
+// groupEverRemoved: some issuer with this subject and key was absent from the mount at some time.
+func (w *c16World) groupEverRemoved(g int) bool {
+	for j := range w.iss {
+		if w.iss[j].Group == g && w.iss[j].EverRemoved {
+			return true
+		}
+	}
+	return false
+}
+
 // crlIssuer returns the index of a present issuer whose CRL covers certificates of issuer i:
 // i itself, else another present member of its group; -1 if none.
 func (w *c16World) crlIssuer(i int) int {
@@ -1232,7 +1242,7 @@ func (w *c16World) check(at string) {
 					// the issuer was deleted and imported again while CRL building is disabled: nothing has
 					// re-associated the revocation record with the new issuer id, and OCSP only looks at the old id
 					ev(e, "C16-ocsp-no-answer-stale-issuer-association-while-crl-disabled", fmt.Sprintf("[%s] OCSP for %s answers %q although the certificate is revoked and its issuer %s is present: an issuer with this subject and key was deleted or re-imported while config/crl disable=true, nothing has re-associated the revocation record since, and OCSP only looks at the recorded (deleted) issuer id", at, serial, o.status, is.Name), nil)
-				} else if noAnswer && is.EverRemoved && c.IsIssuer >= 0 && w.iss[c.IsIssuer].ID != "" {
+				} else if noAnswer && w.groupEverRemoved(is.Group) && c.IsIssuer >= 0 && w.iss[c.IsIssuer].ID != "" {
 					// same root cause as the CRL symptom of this class: the CRL builder skips the revocation
 					// record of a certificate that is itself an issuer, so the record is never re-associated
 					// with its (re-imported) issuer either, and OCSP keeps looking at the deleted issuer id
